@@ -199,7 +199,9 @@ def case(ctx, rnd, i):
                 ctx.violation("out-of-range", "drop_point(%d) = %r" % (pos, q), {**base, "helper": "drop_point"}, {"helper": "drop_point"})
                 continue
             closed = s.open_start == 0 and s.open_end == 0 and s.size > 0
-            tr = perform("drop_point", (pos, str(s)[:80], "->", q), lambda tr_: tr_.replace(q, q, s), False, {"closed": closed})
+            tr = perform("drop_point", (pos, str(s)[:80], "->", q), lambda tr_: tr_.replace(q, q, s), False,
+                         {"closed": closed, "slice_node_open_both_sides_non_prefix":
+                          gensteps.both_open_non_prefix(rs, flat.pt_frag(s.content), s.open_start, s.open_end)})
             if tr is not None and closed and total:
                 # the whole slice must arrive
                 st = flat.toks(flat.pt_frag(s.content), leaf)
